@@ -494,3 +494,27 @@ func ZZ_C03_lex_stream() {
 	}
 	zzCover("compared")
 }
+
+var zzBlockLineMenu = []string{"", " ", "  ", "x", " x", "  x", "    y", "\t", " \tz"}
+
+// ZZ_C03_block_lines: block strings of 1..LINES lines, each drawn from a menu
+// of blank / indented / plain lines (the shapes BlockStringValue treats
+// specially: common indentation, blank first / last / interior lines, blank
+// lines shorter than the common indentation), LF or CRLF line ends.
+func ZZ_C03_block_lines() {
+	n := 1 + zzChoice("lines", zzParam("LINES", 3))
+	sep := "\n"
+	if zzChoice("crlf", 2) == 1 {
+		sep = "\r\n"
+	}
+	body := `"""`
+	for i := 0; i < n; i++ {
+		if i > 0 {
+			body += sep
+		}
+		body += zzBlockLineMenu[zzChoice("line"+string(rune('0'+i)), len(zzBlockLineMenu))]
+	}
+	body += `"""`
+	zzCompareTokens([]byte(body), 0, true)
+	zzCover("compared")
+}
